@@ -1,6 +1,12 @@
 package main
 
+import "path/filepath"
+
 // genOverlay adds the flavour-specific generated files to the overlay map.
-func genOverlay(scratch, flavour string, ov map[string]string, info map[string]interface{}) error {
+func genOverlay(scratch, flavour string, ov map[string]string, info map[string]interface{}, hooks bool) error {
+	if hooks {
+		ov[filepath.Join(repoDir, "v5", "internal", "json", "zz_verif_scan.go")] = filepath.Join(verifDir, "overlay", "inject", "json_scan.go")
+		ov[filepath.Join(repoDir, "v5", "zzverifjson", "scan.go")] = filepath.Join(verifDir, "overlay", "zzverifjson", "scan.go")
+	}
 	return nil
 }
